@@ -1,5 +1,6 @@
 """E step of C11: translation histories on real programs (generated, erased, overwritten, another seed) with reused /
 other-language / fresh translator objects; text digests and program snapshots (pickle) before and after every call."""
+import copy
 import hashlib
 import json
 import pickle
@@ -26,11 +27,32 @@ def main():
             e, _ = genlib.erase(p, seed)
             w, tw = genlib.overwrite(e, seed)
             q = genlib.generate(seed + 1000)
-            progs = {"p": p, "e": e, "w": w, "q": q}
+            base = {"p": p, "e": e, "w": w, "q": q}
             for hi, h in enumerate(hists):
+                # histories that mutate a program in place get their own copies of the program objects
+                progs = dict(base)
+                for name in {c["prog"] for c in h if c["op"] == "mut"}:
+                    progs[name] = copy.deepcopy(base[name])
+                nmut = {"p": 0, "q": 0}
                 trs = {"A": genlib.translator(lang), "B": genlib.translator(OTHER[lang])}
                 steps = []
                 for c in h:
+                    if c["op"] == "mut":
+                        # the pipeline's own in-place mutation: first the erasure, then the overwriting, on the same object
+                        from src.transformations.type_erasure import TypeErasure
+                        from src.transformations.type_overwriting import TypeOverwriting
+                        cls = TypeErasure if nmut[c["prog"]] == 0 else TypeOverwriting
+                        nmut[c["prog"]] += 1
+                        try:
+                            genlib.reseed(seed + 7)
+                            tf = cls(progs[c["prog"]], lang, None, {})
+                            tf.transform()
+                            progs[c["prog"]] = tf.result()
+                            ok = "mutated"
+                        except Exception:  # noqa: BLE001
+                            ok = ""
+                        steps.append({"op": "mut", "tr": "-", "prog": c["prog"], "text": ok, "before": "", "after": ""})
+                        continue
                     tr = trs.get(c["tr"]) or genlib.translator(lang)
                     prog = progs[c["prog"]]
                     before = dig(pickle.dumps(prog))
@@ -39,7 +61,14 @@ def main():
                     except Exception:  # noqa: BLE001
                         text = ""
                     after = dig(pickle.dumps(prog))
-                    steps.append({"tr": c["tr"], "prog": c["prog"], "text": text, "before": before, "after": after})
+                    steps.append({"op": "tr", "tr": c["tr"], "prog": c["prog"], "text": text, "before": before, "after": after})
+                    if c["tr"] == "A":
+                        # reference call: the same program object through a fresh translator (an "F" step of the model)
+                        try:
+                            ref = dig(genlib.translate(prog, tr=genlib.translator(lang)))
+                        except Exception:  # noqa: BLE001
+                            ref = ""
+                        steps.append({"op": "tr", "tr": "F", "prog": c["prog"], "text": ref, "before": after, "after": dig(pickle.dumps(prog))})
                 cases.append({"id": "%s/%d/h%d" % (lang, seed, hi), "steps": steps})
         return cases
     cases = genlib.in_big_stack(work)
